@@ -68,7 +68,11 @@ impl Family for C18Family {
     fn generate(&self, master: u64, index: u64, _tier: Tier) -> Scenario {
         let mut r = Rng::new(run_seed(master, "C18", index));
         let faulty = index % 2 == 1;
-        let backend = if r.chance(1, 5) { Backend::Memory } else { Backend::Ref };
+        let backend = match r.below(8) {
+            0 => Backend::Memory,
+            1 => Backend::Slot,
+            _ => Backend::Ref,
+        };
         let opts = HistOpts { faults: faulty, concurrent: false, backend, weights: [0, 0, 3, 4], min_ops: 1, max_ops: 5, ..Default::default() };
         let mut c = gen_history(&mut r, &opts);
         if r.bool() {
@@ -78,7 +82,7 @@ impl Family for C18Family {
             let pos = r.usize(c.actors[0].ops.len() + 1);
             c.actors[0].ops.insert(pos, plain_op(OpKind::GetInfo { via_trait: false }));
         }
-        if backend == Backend::Memory {
+        if backend != Backend::Ref {
             for op in c.actors[0].ops.iter_mut() {
                 if let OpKind::GetAssertion(s) = &mut op.kind {
                     s.allow = Some(vec![IdRef::Nth(r.below(3) as u32)]);
